@@ -164,6 +164,9 @@ func verifOracle(occ []verifOccupant, plan []verifPlanEnt) verifPlanVerdict {
 
 var verifSmallPlan bool
 
+// verifAllSpellings adds the '..', duplicate-slash and '.' spellings (single-entry plans).
+var verifAllSpellings bool
+
 var verifPackagers = []string{"deb", "rpm", ""}
 
 func verifSeg(name string) string {
@@ -204,12 +207,21 @@ func verifPlanEntry(name string, ntypes int, srcs []string) (verifPlanEnt, *Cont
 	if verifSmallPlan {
 		nsp = 2
 	}
+	if verifAllSpellings {
+		nsp = 6
+	}
 	switch v.NondetChoice(name+".spelling", nsp) {
 	case 1:
 		spelled = e.canon + "/"
 		e.trailing = true
 	case 2:
 		spelled = e.canon[1:] // relative spelling
+	case 3:
+		spelled = "/zz/.." + e.canon // steps out of a directory that is no ancestor of the entry
+	case 4:
+		spelled = "/" + e.canon // duplicate slash
+	case 5:
+		spelled = "/." + e.canon
 	}
 	c := &Content{Destination: spelled, Type: e.typ, Packager: e.packager}
 	switch e.typ {
@@ -349,6 +361,7 @@ func verifPlan(k, ntypes int) { verifPlanOpt(k, ntypes, false) }
 // verifPlanOpt: small = every entry is addressed to all packagers and spelled canonically (keeps 3-entry lists tractable).
 func verifPlanOpt(k, ntypes int, small bool) {
 	verifSmallPlan = small
+	verifAllSpellings = k == 1
 	srcs := verifPlanFS()
 	packager := []string{"deb", "rpm", "apk"}[v.NondetChoice("packager", 3)]
 	var raw Contents
